@@ -913,7 +913,8 @@ def remap_by_types(
             elif ((dc := self.lookup_type(t_node.value)) is not None) and is_dataclass(dc):
                 dc_types = get_type_hints(dc)
                 _slice = ast.literal_eval(t_node.slice)
-                if _slice not in dc_types:
+                # Only a string can name a field (a list or dictionary is not even hashable).
+                if not isinstance(_slice, str) or _slice not in dc_types:
                     raise ValueError(
                         f"Key {ast.unparse(t_node.slice)} not found in dataclass/dictionary {dc}"
                     )
